@@ -684,6 +684,14 @@ class SchedAdapter:
                 report('C11/unplaced-task-not-queued',
                        f'{len(s["cluster"])} queued + {nput} released != {len(farm._cluster)} queued + {ntask} sent '
                        f'(cloud queue holds {len(farm._cloud)} without a cloud agency)')
+        if ev[0] == 'tick' and any(o[0] == 'archived' for o in w.obs):
+            # this dispatch took the pipeline out of running (archive): the workers
+            # that were waiting are told to leave, none is kept or told to wait
+            waits = [o for o in w.obs if o[0] == 'wait']
+            if waits or farm._workers:
+                report('C11/workers-kept-while-the-pipeline-leaves-running',
+                       f'the dispatch started the archive but {len(farm._workers)} workers stay registered and '
+                       f'{len(waits)} were told to wait')
         for o in w.obs:
             if o[0] == 'dispatch-raised':
                 report(f'C11/dispatch-raises/{o[1]}', f'farm.dispatch raised {o[1]}: {o[2]}')
